@@ -305,7 +305,7 @@ var (
 
 // VerifC31bStartup: every start-up situation, then Close.
 func VerifC31bStartup() {
-	b := vcBounds{rounds: 1, maxOps: 2, ops: []int{voOpWrite, voOpSnapKeep1}, tampers: vcTampersQuick,
+	b := vcBounds{rounds: 1, maxOps: 1, ops: []int{voOpWrite, voOpSnapKeep1}, tampers: vcTampersQuick,
 		peers: []int{voPeersNone, voPeersSelf, voPeersGarbage}, closeOpt: []int{0, 1}}
 	if verifTier() == 1 {
 		b.maxOps = 3
@@ -321,7 +321,7 @@ func VerifC31bStartup() {
 // VerifC31bAgain: two rounds - the Close under test is what the next start-up finds; the same Store
 // object may be opened again (Close's own hold of the gate must have ended).
 func VerifC31bAgain() {
-	b := vcBounds{rounds: 2, maxOps: 1, ops: []int{voOpWrite}, tampers: []int{voTamperNone, voTamperCRC0, voTamperWrongCRC, voTamperSize},
+	b := vcBounds{rounds: 2, maxOps: 1, ops: []int{voOpWrite}, tampers: []int{voTamperNone, voTamperCRC0, voTamperSize},
 		peers: []int{voPeersNone}, closeOpt: []int{0, 1}, sameObj: true}
 	if verifTier() == 1 {
 		b.maxOps = 2
